@@ -234,3 +234,15 @@ Lemma raises_pinned :
   Gen.Gates.vmx__parse_key_locator_raises =
     [("True", "NotImplementedError")].
 Proof. repeat split. Qed.
+
+(* an accepted key safe: every pair in front of the one that opened names supported algorithms *)
+Theorem vmx_pairs_accepts : forall ps, vmx_pairs_gate ps = Ok tt ->
+  exists pre post, ps = (pre ++ (true, true) :: post)%list /\ Forall (fun q => fst q = true) pre.
+Proof.
+  induction ps as [|[sup op] rest IH]; intros H; cbn [vmx_pairs_gate] in H; [discriminate|].
+  destruct sup; cbn [negb] in H; [|discriminate].
+  destruct op.
+  - exists [], rest. split; [reflexivity|constructor].
+  - destruct (IH H) as (pre & post & -> & Hall).
+    exists ((true, false) :: pre), post. split; [reflexivity|]. constructor; [reflexivity|exact Hall].
+Qed.
